@@ -252,6 +252,14 @@ pub unsafe fn pending_bags() -> usize {
     crate::ebr_impl::verif_shim::default_pending_bags()
 }
 
+/// Epochs at which the sealed bags in the default collector's global queue were sealed, oldest first.
+///
+/// # Safety
+/// No other thread may be running inside the queue.
+pub unsafe fn pending_bag_epochs() -> Vec<usize> {
+    crate::ebr_impl::verif_shim::default_pending_bag_epochs()
+}
+
 #[derive(Clone, Copy, Debug, Default, PartialEq, Eq)]
 pub struct LocalInfo {
     pub epoch: usize,
